@@ -931,6 +931,13 @@ class Tract:
             # Pull the preprocessed text from the parser.
             self.pp_desc = parser.text
 
+            # Keep track of which flags were generated by this parse (as
+            # opposed to inherited), so a later parse can replace them.
+            self._own_flags = {
+                attr: getattr(parser, attr)[n:]
+                for attr, n in parser._inherited.items()
+            }
+
         return parser.lots + parser.qqs
 
     def preprocess(self, clean_qq=None, commit=False) -> str:
